@@ -355,6 +355,13 @@ func csvPermuted(cc *run.Case) bool {
 	for i := 0; i < extra; i++ {
 		cols = append(cols, fmt.Sprintf("extra%d", i))
 	}
+	// extra columns whose names differ from a real header only in case or in
+	// surrounding blanks are other columns (headers are matched by name)
+	for _, look := range []string{"s", "f64", " F64", "B ", "custom header", "CUSTOM HEADER", "d", "i64"} {
+		if r.Intn(3) == 0 {
+			cols = append(cols, look)
+		}
+	}
 	perm := r.Perm(len(cols))
 	var buf bytes.Buffer
 	w := csv.NewWriter(&buf)
@@ -617,6 +624,32 @@ func c11JSON(cc *run.Case) bool {
 		ss[i] = strings.ToValidUTF8(randString(r), "?")
 		ts[i] = randTime(r, false).Add(time.Duration(r.Range(0, 999999999)))
 		rs[i] = jsonRow{Name: ss[i], N: is[i], X: fs[i], When: ts[i], Flags: []bool{r.Bool(), r.Bool()}}
+	}
+	// interface-typed positions: numbers come back as float64, objects as
+	// map[string]any, exactly what encoding/json documents for `any`
+	anys := make([]any, n)
+	maps := make([]map[string]any, n)
+	for i := 0; i < n; i++ {
+		anys[i] = []any{fs[i], ss[i], r.Bool(), nil, map[string]any{"x": fs[i]}}[r.Intn(5)]
+		maps[i] = map[string]any{"name": ss[i], "v": fs[i], "n": float64(r.Range(-1000, 1000)), "tags": []any{ss[i], float64(i)}}
+	}
+	// long streams: several buffer sizes' worth of output
+	long := make([]int64, r.Pick(700, 1500, 4000))
+	for i := range long {
+		long[i] = int64(r.Range(100000, 999999))
+	}
+	longRows := make([]jsonRow, r.Pick(150, 400))
+	for i := range longRows {
+		longRows[i] = jsonRow{Name: fmt.Sprintf("row-%d", i), N: int64(i), X: float64(i) / 8, When: day0.AddDate(0, 0, i), Flags: []bool{i%2 == 0}}
+	}
+	rowEq := func(a, b jsonRow) bool {
+		return a.Name == b.Name && a.N == b.N && math.Float64bits(a.X) == math.Float64bits(b.X) && a.When.Equal(b.When) && reflect.DeepEqual(a.Flags, b.Flags)
+	}
+	if !(jsonRound(cc, "any", anys, func(a, b any) bool { return reflect.DeepEqual(a, b) }) &&
+		jsonRound(cc, "map[string]any", maps, func(a, b map[string]any) bool { return reflect.DeepEqual(a, b) }) &&
+		jsonRound(cc, "int64 (long stream)", long, func(a, b int64) bool { return a == b }) &&
+		jsonRound(cc, "struct (long stream)", longRows, rowEq)) {
+		return false
 	}
 	return jsonRound(cc, "float64", fs, func(a, b float64) bool { return math.Float64bits(a) == math.Float64bits(b) }) &&
 		jsonRound(cc, "int64", is, func(a, b int64) bool { return a == b }) &&
